@@ -656,3 +656,47 @@ PROPS['C18'] = {
                    'and map/unmap lengths in range; zero-length regions never mapped. Ghost values compared with the sizes seen in real system calls and the returned Vec'),
     'level_note': 'Trusted: Lean kernel, translator, harness; NOT a proof of memory safety of the machine code (no model of Rust memory); use-after-free/double-free only via descriptor and mapping ledgers',
 }
+
+
+def chain_scen(builds, nq, nt):
+    def f(tier, seed):
+        n = nt if tier == 'thorough' else nq
+        return [{'build': b, 'args': ['chain', '--seed', str(seed + k), '--n', str(n // 2), '--tier', tier]} for b in builds for k in range(2)]
+    return f
+
+
+def search_chain(run):
+    for b in ('default', 'force-inprocess'):
+        for k in range(2):
+            rc, cases, err = vh(['chain', '--seed', str(30 + k), '--n', '300'], build=b, timeout=1200)
+            bad = [c for c in cases if c.get('oracle')]
+            if bad or rc != 0:
+                return {'implementation': bad[0] if bad else {'exit': rc, 'stderr': err[-800:]},
+                        'replay_cmd': f'harness/target-{b}/debug/vh chain --seed {30 + k} --n 300'}
+    return search_world(run)
+
+
+PROPS['C04'] = {
+    'modules': ['IpcModel.Props.C04'],
+    'theorems': ['C04.C04_roundtrip', 'C04.C04_own', 'C04.C04_fd_order', 'C04.C04_queue_step', 'C04.C04_backlog', 'C04.C04_moved_from',
+                 'Ideal.fifo_step', 'Ideal.fifo_run', 'Ideal.run_eq_runFrom', 'Wire.dec_enc'],
+    'builds': ['default', 'memfd', 'force-inprocess'],
+    'scenarios': plus(chain_scen(['default', 'memfd', 'force-inprocess'], 160, 4000), wire_scen('enc', 800, 12000), world_scen(['default'], 200, 4000)),
+    'search': search_chain,
+    'rule': ('chain: a receiver transferred over 1..5 hops inside carrier messages {0..2 senders before it, the receiver, 0..2 regions (lengths 0, 1, 4095, 4096, 4097, 10000), '
+             '0..1 senders after it, padding of 33 bytes or 300 KB (multi-packet)} to the same thread, another thread or a spawned process and back, with 0..3 messages sent to '
+             'its channel before, during and after every hop; every received sender is used once, regions compared, the final handle must yield every message ever sent, in '
+             'order, and then report empty; the whole history is compared with Ideal.run (OS, memfd and in-process builds); wire enc: seeded typed values with endpoints at '
+             'arbitrary positions sent through the real serialiser, bytes/attachment order compared with the model and every received endpoint probed with a nonce; world: '
+             'seeded programs with embedded senders / moved receivers / regions vs Ideal.run; non-trivial = at least one hop / a value with an endpoint; distinct = distinct history or value'),
+    'explanation': ('round trip of any well-typed value with endpoints (positions, identity, own attachments only), descriptor order through the kernel, and the per-channel FIFO of '
+                    'the specification over all programs — moving a receiver any number of times never changes what is queued — are theorems; the transports are compared with '
+                    'the specification on transfer chains across threads and processes'),
+    'assumptions': ['kernel: a queue belongs to the socket (open file description), not to a descriptor; SCM_RIGHTS preserves it',
+                    'the refinement transport -> Ideal is established by differential execution, not proved'],
+    'level_text': ('Kernel-checked: any well-typed value decodes from its own encoding to itself with every endpoint and region at its position, consuming exactly its own attachments; '
+                   'send hands the OS exactly the value\'s endpoints in traversal order; descriptor lists are split back exactly after the kernel, small or multi-packet; in the '
+                   'specification, for every program, received ++ queued = initially queued ++ sent for every channel whose receiver is not destroyed, however often the receiver '
+                   'handle travels, and a moved-from handle yields nothing. Real transfer chains over threads/processes, typed values with probes and seeded programs compared with the models'),
+    'level_note': 'Trusted: Lean kernel, harness; the link between the transports and the specification is differential (chains, world programs), the kernel\'s queue-follows-socket semantics is modelled',
+}
